@@ -781,7 +781,7 @@ def rule_cache_per_descriptor(check, rule):
                 if isinstance(n_, ast.Assign):
                     for t in n_.targets:
                         if isinstance(t, ast.Attribute) and t.attr == attr and isinstance(t.value, ast.Name) and t.value.id == iself \
-                                and isinstance(n_.value, (ast.Call, ast.Dict)) and n_ in init.node.body:
+                                and isinstance(n_.value, (ast.Call, ast.Dict)) and n_ in init.main_body:
                             per_inst = True
         if per_inst:
             check.holds(rule, st, 'self.%s is created unconditionally in __init__: one cache per descriptor object' % attr, key=key)
